@@ -18,6 +18,8 @@ explicit 3-D vectors (geom_ref):
 """
 import decimal
 
+import math
+
 import numpy as np
 
 from .. import core
@@ -338,6 +340,43 @@ def shard(ctx, si, payload):
             plotobs.check_stage(ctx, f"RegionGeom.__call__ (altitude {cfgt[0]})", lambda: RegionGeom(cfg), lambda o, kw: o(500, **kw), (), "call", seed=int(rng.integers(2**31)))
 
 
+def special_points(ctx):
+    """Points where a sine or cosine of the construction is exactly +-1 (ground spot on a pole, vertical
+    trajectory, line of sight at the nadir): every reported angle stays a number and the event is judged
+    like any other."""
+    from nuspacesim.simulation.geometry.region_geometry import RegionGeom
+
+    cases = [
+        ((525.0, 1.2759370780197172, 0.4, None, None, None), (0.3, 0.2, 0.75, 0.2260853441061499)),
+        ((525.0, 1.2539805368198058, 0.0, None, None, None), (0.3, 0.2, 0.75, 0.13868274360016863)),
+        ((525.0, -1.2759370780197172, 0.4, None, None, None), (0.3, 0.2, 0.25, 0.2260853441061499)),
+        ((2000.0, 1.041203135072107, 0.0, None, None, None), (0.3, 0.2, 0.75, 0.2797369897307874)),
+        ((36000.0, 0.22491449666444696, 0.0, None, None, None), (0.3, 0.2, 0.75, 0.006886134237440444)),
+        ((525.0, 0.3, 1.0, None, math.pi / 2, None), (0.9724323656349586, 0.5, 0.1, 0.41354970867494234)),
+        ((36000.0, 0.3, 1.0, None, math.radians(20.0), None), (0.5751032718462002, 0.5, 0.1, 0.9715736877635391)),
+    ]
+    for cfgt, u in cases:
+        g = RegionGeom(make_cfg(*cfgt))
+        # the witness and its floating-point neighbours in u4
+        u4 = u[3]
+        for k in range(-3, 4):
+            v = u4
+            for _ in range(abs(k)):
+                v = float(np.nextafter(v, 2.0 if k > 0 else -1.0))
+            uu = np.array([[u[0]], [u[1]], [u[2]], [v]])
+            g.throw(uu)
+            ctx.count("special-points")
+            vals = {"latS": g.latS[0], "longS": g.longS[0], "betaTrSubN": g.betaTrSubN[0], "thetaS": g.thetaS[0], "losPathLen": g.losPathLen[0]}
+            bad = [n_ for n_, x_ in vals.items() if not np.isfinite(x_)]
+            if not bad and bool(g.event_mask[0]):
+                la, lo = g.find_lat_long_along_traj(np.array([10.0]))
+                if not (np.isfinite(la[0]) and np.isfinite(lo[0])):
+                    bad.append("position at 10 km along the trajectory")
+            if bad:
+                ctx.violation("special-point", f"altitude {cfgt[0]} km, detector latitude {cfgt[1]!r} rad, cone {cfgt[4]}: u = {[u[0], u[1], u[2], v]} gives non-finite {bad} (event kept: {bool(g.event_mask[0])}; lat {vals['latS']!r}, beta {vals['betaTrSubN']!r})", {"cfg": cfgt, "u": [float(x).hex() for x in (u[0], u[1], u[2], v)]})
+                break
+
+
 def side_by_side(ctx, si, payload):
     """Several geometry objects alive at once (built first, thrown afterwards, as a side-by-side
     comparison of detector altitudes or limb angles does): each gives, bit for bit, what an object
@@ -397,8 +436,9 @@ def run(ctx):
     nsh = ctx.pick(6, 16)
     payloads = [{"cfgs": cfgs[i::nsh], "nint": nint} for i in range(nsh)]
     core.run_shards(ctx, "nssmon.checks.c02", "shard", payloads, workers=nsh)
+    special_points(ctx)
     core.run_shards(ctx, "nssmon.checks.c02", "side_by_side", [{"cfgs": cfgs[i::4]} for i in range(4)], workers=4)
-    for m in ("range", "inverse-cdf", "inverse-cdf-decimal", "monotone", "spot", "emergence", "mask", "along", "along-after-rethrow", "history", "side-by-side", "call", "plots"):
+    for m in ("range", "inverse-cdf", "inverse-cdf-decimal", "monotone", "spot", "emergence", "mask", "along", "along-after-rethrow", "history", "side-by-side", "special-points", "call", "plots"):
         ctx.require(m)
     if ctx.obs.get("kept_events_seen", 0) < 1000:
         ctx.inconclusive_because("fewer than 1000 kept events were observed")
